@@ -702,3 +702,43 @@ def bool_fn_table_inlined(F, fn, depth=3):
             val = ("atom", show(_strip_refs(val[1])), val[2])
         res.append((sa, val))
     return res
+
+
+
+def path_constraints(fn, path, var_of):
+    """{variable: value} implied by the edges of `path` (a list of blocks), or None when the path contradicts itself.
+    `var_of(term)` names the variable a condition term is about (or None).  Values: 'Some' / 'None' for Option tests
+    (discriminant switches, is_some(), is_none()), True / False for plain boolean conditions."""
+    cons = {}
+    for i, b in enumerate(path[:-1]):
+        t = fn.term(b)
+        if t["k"] != "switch":
+            continue
+        nxt = path[i + 1]
+        d = origin(fn, t["discr"])
+        var, val = None, None
+        if d[0] == "discr" and len(d) > 3 and d[3]:
+            var = var_of(d[1])
+            vals = [v for v, tb in t["targets"] if tb == nxt]
+            names = [n for (n, v2) in d[3] if v2 in vals]
+            if not names and t.get("otherwise") == nxt:
+                names = [n for (n, v2) in d[3] if v2 not in [v for v, _ in t["targets"]]]
+            if len(names) == 1:
+                val = names[0]
+        else:
+            be = bool_edge(fn, b, nxt)
+            if be and be[1] is not None:
+                c = be[0]
+                last = c[1].split("::")[-1] if c[0] == "call" else None
+                if last in ("is_some", "is_none"):
+                    var = var_of(c)
+                    val = "Some" if ((last == "is_some") == be[1]) else "None"
+                else:
+                    var = var_of(c)
+                    val = be[1]
+        if var is None or val is None:
+            continue
+        if var in cons and cons[var] != val:
+            return None
+        cons[var] = val
+    return cons
